@@ -17,12 +17,14 @@ Import ListNotations.
 Open Scope N_scope.
 
 Inductive cstatus := CLaunched | CBuilt | CGuardWait | CExtended | CFailed | CClosed.
-Inductive sstatus := SNew | SRemap | SSentConnect | SSucceeded | SDetached | SFailed | SClosed.
+Inductive sstatus := SNew | SRemap | SSentConnect | SSucceeded | SDetached | SFailed | SClosed
+                    | SNewResolve | SSentResolve.      (* a RESOLVE request: announced, sent to the exit *)
 
 Definition cstatus_code (s : cstatus) : N :=
   match s with CLaunched => 0 | CBuilt => 1 | CGuardWait => 2 | CExtended => 3 | CFailed => 4 | CClosed => 5 end.
 Definition sstatus_code (s : sstatus) : N :=
-  match s with SNew => 0 | SRemap => 1 | SSentConnect => 2 | SSucceeded => 3 | SDetached => 4 | SFailed => 5 | SClosed => 6 end.
+  match s with SNew => 0 | SRemap => 1 | SSentConnect => 2 | SSucceeded => 3 | SDetached => 4 | SFailed => 5 | SClosed => 6
+             | SNewResolve => 7 | SSentResolve => 8 end.
 Definition cstatus_eqb (a b : cstatus) : bool := cstatus_code a =? cstatus_code b.
 Definition sstatus_eqb (a b : sstatus) : bool := sstatus_code a =? sstatus_code b.
 
@@ -137,7 +139,7 @@ Definition ev_legal (tv : tview) (e : event) : bool :=
       kw_ok kw && (port <? 65536) &&
       let old := kfind ts_id id (tss tv) in
       if s_terminal st then true else
-      match st, old with SNew, Some _ => false | _, _ => true end &&      (* NEW only for an id Tor does not have *)
+      match st, old with SNew, Some _ | SNewResolve, Some _ => false | _, _ => true end &&   (* NEW / NEWRESOLVE only for an id Tor does not have *)
       match old with
       | Some o => (port =? ts_port o) &&
                   match st with SRemap => true | _ => host =? ts_current o end
